@@ -9,7 +9,7 @@ import ast
 import itertools
 from typing import Any, Callable, Dict, Iterable, List, Optional, Sequence, Set, Tuple
 
-from .astq import Guard, norm
+from .astq import Guard, canon_atom, norm
 from .core import AnalysisError
 
 
@@ -22,7 +22,7 @@ def bool_atoms(test: ast.AST) -> Set[str]:
         for v in test.values:
             out |= bool_atoms(v)
         return out
-    return {norm(test)}
+    return {canon_atom((norm(test), True))[0]}
 
 
 def eval_bool(test: ast.AST, env: Dict[str, bool]) -> bool:
@@ -31,10 +31,12 @@ def eval_bool(test: ast.AST, env: Dict[str, bool]) -> bool:
     if isinstance(test, ast.BoolOp):
         vals = [eval_bool(v, env) for v in test.values]
         return all(vals) if isinstance(test.op, ast.And) else any(vals)
-    key = norm(test)
+    if isinstance(test, ast.Constant):
+        return bool(test.value)
+    key, pol = canon_atom((norm(test), True))
     if key not in env:
         raise AnalysisError(f"predicate table: atom {key!r} has no value")
-    return env[key]
+    return env[key] if pol else not env[key]
 
 
 def guards_table(
@@ -167,7 +169,27 @@ def eval_expr(node: ast.AST, env: Dict[str, Any]) -> Any:
             return l // r
         if isinstance(node.op, ast.Div):
             return l / r
+        if isinstance(node.op, ast.Mod) and isinstance(l, (str, bytes)):
+            try:
+                return l % r
+            except Exception as error:
+                raise _Raised(f"{type(error).__name__}: {error}")
+        if isinstance(node.op, ast.Mod):
+            return l % r
         raise Unknown(norm(node))
+    if isinstance(node, ast.JoinedStr):
+        out_s = ""
+        for part in node.values:
+            if isinstance(part, ast.Constant):
+                out_s += str(part.value)
+            elif isinstance(part, ast.FormattedValue) and part.format_spec is None and part.conversion in (-1, 115, 114):
+                v = eval_expr(part.value, env)
+                out_s += repr(v) if part.conversion == 114 else str(v)
+            else:
+                raise Unknown(norm(node))
+        return out_s
+    if isinstance(node, ast.Dict) and all(k is not None for k in node.keys):
+        return {eval_expr(k, env): eval_expr(v, env) for k, v in zip(node.keys, node.values)}
     if isinstance(node, ast.IfExp):
         return eval_expr(node.body, env) if eval_expr(node.test, env) else eval_expr(node.orelse, env)
     if isinstance(node, ast.Subscript):
@@ -224,6 +246,16 @@ def eval_expr(node: ast.AST, env: Dict[str, Any]) -> Any:
 
 _PURE_BUILTINS = {"int": int, "bool": bool, "len": len, "min": min, "max": max, "any": any, "all": all, "bytes": bytes, "str": str, "list": list, "tuple": tuple, "sorted": sorted, "isinstance": None}
 _PURE_BUILTINS.pop("isinstance")
+_PURE_BUILTINS["next"] = lambda it, *d: next(iter(it), *d)
+_PURE_BUILTINS["enumerate"] = lambda it, *a: list(enumerate(it, *a))
+_PURE_BUILTINS["zip"] = lambda *a: list(zip(*a))
+_PURE_BUILTINS["reversed"] = lambda it: list(reversed(it))
+_PURE_BUILTINS["set"] = set
+_PURE_BUILTINS["frozenset"] = frozenset
+_PURE_BUILTINS["dict"] = dict
+_PURE_BUILTINS["sum"] = sum
+_PURE_BUILTINS["abs"] = abs
+_PURE_BUILTINS["repr"] = repr
 _PURE_METHODS = {"upper", "lower", "strip", "lstrip", "rstrip", "split", "rsplit", "startswith", "endswith", "decode", "encode", "partition", "rpartition", "replace", "get", "items", "keys", "values", "count", "index", "title", "join"}
 
 
@@ -247,8 +279,9 @@ def single_return_expr(func: ast.AST) -> ast.AST:
     raise AnalysisError(f"{getattr(func, 'name', '?')}: expected a single `return <expr>` body")
 
 
-def eval_function(func: ast.AST, env: Dict[str, Any], depth: int = 0) -> Any:
-    """Interpret a small pure function: if/elif/else + return + simple assignments."""
+def eval_function(func: ast.AST, env: Dict[str, Any], depth: int = 0, want_env: bool = False) -> Any:
+    """Interpret a small pure function: if/elif/else + return + simple assignments.
+    ``want_env``: return the final local bindings instead of the return value."""
     local = dict(env)
 
     class _Ret(Exception):
@@ -297,7 +330,7 @@ def eval_function(func: ast.AST, env: Dict[str, Any], depth: int = 0) -> Any:
                 lst = list(local[s.value.func.value.id])
                 lst.append(arg) if s.value.func.attr == "append" else lst.extend(arg)
                 local[s.value.func.value.id] = lst
-            elif isinstance(s, ast.Pass):
+            elif isinstance(s, (ast.Pass, ast.Nonlocal, ast.Global)):
                 continue
             elif isinstance(s, ast.Raise):
                 raise _Raised(norm(s.exc) if s.exc is not None else "raise")
@@ -307,5 +340,5 @@ def eval_function(func: ast.AST, env: Dict[str, Any], depth: int = 0) -> Any:
     try:
         block(func.body)
     except _Ret as r:
-        return r.v
-    return None
+        return local if want_env else r.v
+    return local if want_env else None
